@@ -10,6 +10,7 @@ inside Coq against the model (create_agrees) and by the specification
 adversarial strings.  Object-vs-dict requests are compared as namespace
 infosets (expat).
 """
+import copy
 import logging
 
 from . import common, family as F
@@ -17,9 +18,10 @@ from .common import cN, cbool, clist, copt, cstr
 
 THEOREMS = [
     "create_meets_spec", "create_mirrors_type", "member_object_mirrors_type", "build_fuel_sufficient",
-    "split_wellformed", "qualify_spellings", "create_spelling_independent",
+    "split_wellformed", "split_fuel_sufficient", "qualify_spellings", "create_spelling_independent",
     "create_known_name_mirrors", "create_unknown_raises", "create_never_partial",
-    "content_model_flattening_agrees", "strict_reading_refuted", "malformed_path_accepted",
+    "content_model_flattening_agrees", "object_vs_dict_request",
+    "strict_reading_refuted", "malformed_path_accepted",
 ]
 
 PRE = "From SV Require Import Lib.Base Fam.Schema C03.Model C03.Spec."
@@ -37,6 +39,8 @@ CANDIDATES = {
         "a required single member whose type is an enumeration is pre-built as a Property object "
         "{value = None} instead of None",
 }
+
+HID = 50          # namespace index offset of the (unnameable) anonymous complex types
 
 ENUM_VALUES = ["red", "green", "v1", "A", "b-c", "dark blue", "x_y", "Z9"]
 
@@ -153,19 +157,42 @@ def gen_interface(rng):
                 ea.name = eb.name
                 feats.add("same-name-in-two-types")
                 break
+    # anonymous complex types: a local or global element carrying its own <complexType>
+    # (abstractly: a type in a namespace no spelling can name, called like the element)
+    S.visible = list(S.types)
+    if rng.random() < 0.5:
+        for _ in range(rng.choice([1, 2])):
+            src = rng.choice(S.visible)
+            cands = [x for x in all_elems(S) if x[2].default is None and x[0].ns < HID]
+            if not cands:
+                break
+            (t, c, e) = rng.choice(cands)
+            if S.type(t.ns + HID, e.name) is not None:
+                continue
+            S.types.append(F.CType(e.name, t.ns + HID, src.base, copy.deepcopy(src.content),
+                                   copy.deepcopy(src.attrs)))
+            e.tref = ("n", t.ns + HID, e.name)
+            feats.add("anonymous-type")
+    if rng.random() < 0.3:
+        src = rng.choice(S.visible)
+        gns = rng.randrange(nns)
+        if S.type(gns + HID, "ga") is None:
+            S.types.append(F.CType("ga", gns + HID, src.base, copy.deepcopy(src.content), copy.deepcopy(src.attrs)))
+            S.gelems.append(GElem("ga", gns, ("n", gns + HID, "ga")))
+            feats.add("anonymous-type")
     # global elements: one wrapper per complex type (also used as operations),
     # plus elements of built-in / simple / complex type in any namespace
-    for k, t in enumerate(S.types):
+    for k, t in enumerate(S.visible):
         S.gelems.append(GElem("op%d" % k, 0, ("n", t.ns, t.name)))
     S.gelems.append(GElem("gb", rng.randrange(nns), ("b", rng.choice(F.BUILTINS))))
     if S.simples:
         s = rng.choice(S.simples)
         S.gelems.append(GElem("gs", rng.randrange(nns), ("n", s.ns, s.name)))
-    t = rng.choice(S.types)
+    t = rng.choice(S.visible)
     S.gelems.append(GElem("gc", rng.randrange(nns), ("n", t.ns, t.name)))
     if rng.random() < 0.25:
         # an element called like a type (separate symbol spaces in XSD)
-        t1, t2 = rng.choice(S.types), rng.choice(S.types)
+        t1, t2 = rng.choice(S.visible), rng.choice(S.visible)
         S.gelems.append(GElem(t1.name, t1.ns, ("n", t2.ns, t2.name)))
         feats.add("element-named-like-type")
     if any(isinstance(p, F.Any) for t in S.types for p, _ in S.flat(t)):
@@ -206,6 +233,12 @@ class Renderer3(F.Renderer):
             elif r.random() < 0.15:
                 occ += ' maxOccurs="1"'
             self.occ[id(e)] = occ
+        if e.tref[0] == "n" and e.tref[1] >= HID:
+            a = ' name="%s"%s%s' % (e.name, occ, ' nillable="true"' if e.nillable else "")
+            if e.qualified != self.S.namespaces[declaring_ns][1]:
+                a += ' form="%s"' % ("qualified" if e.qualified else "unqualified")
+            return "%s<xsd:element%s>\n%s\n%s</xsd:element>" % (
+                indent, a, self.anon(self.S.type(e.tref[1], e.tref[2]), declaring_ns, indent + "  "), indent)
         a = ' name="%s" type="%s"%s' % (e.name, self.tref(e.tref), occ)
         if e.nillable:
             a += ' nillable="true"'
@@ -214,6 +247,18 @@ class Renderer3(F.Renderer):
         if e.qualified != self.S.namespaces[declaring_ns][1]:
             a += ' form="%s"' % ("qualified" if e.qualified else "unqualified")
         return "%s<xsd:element%s/>" % (indent, a)
+
+    def anon(self, h, real_ns, indent):
+        t2 = copy.copy(h)
+        t2.ns = real_ns
+        txt = F.Renderer.ctype(self, t2, indent)
+        return txt.replace('<xsd:complexType name="%s">' % h.name, "<xsd:complexType>", 1)
+
+    def gelem(self, g):
+        if g.tref[0] == "n" and g.tref[1] >= HID:
+            return '      <xsd:element name="%s">\n%s\n      </xsd:element>' % (
+                g.name, self.anon(self.S.type(g.tref[1], g.tref[2]), g.ns, "        "))
+        return '      <xsd:element name="%s" type="%s"/>' % (g.name, self.tref(g.tref))
 
     def nsdecls(self):
         return F.Renderer.nsdecls(self) + " " + " ".join('xmlns:%s="%s"' % pu for pu in self.alt)
@@ -226,8 +271,8 @@ class Renderer3(F.Renderer):
     def schema_block(self, ns, extra=""):
         lines = [extra] if extra else []
         lines += [self.simple(s) for s in self.S.simples if s.ns == ns]
-        lines += ['      <xsd:element name="%s" type="%s"/>' % (g.name, self.tref(g.tref))
-                  for g in self.S.gelems if g.ns == ns and not (ns == 0 and g.name.startswith("op"))]
+        lines += [self.gelem(g) for g in self.S.gelems
+                  if g.ns == ns and not (ns == 0 and g.name.startswith("op"))]
         return F.Renderer.schema_block(self, ns, "\n".join(lines))
 
     def prefix_table(self):
@@ -238,7 +283,7 @@ class Renderer3(F.Renderer):
 
 
 def render(S, R):
-    ops = [F.Op("op%d" % k, "wrapped", in_type=(t.ns, t.name)) for k, t in enumerate(S.types)]
+    ops = [F.Op("op%d" % k, "wrapped", in_type=(t.ns, t.name)) for k, t in enumerate(S.visible)]
     text = F.render_ops(S, ops, R).decode("utf-8")
     # the schema blocks in a rotated order: the first block (whose namespace the merged
     # suds schema reports as its own) need not be the WSDL's target namespace
@@ -409,14 +454,14 @@ def member_walks(rng, S, t, max_depth):
 def gen_spellings(rng, S, R, thorough):
     """[(text, Sp or None, class label)]"""
     out = []
-    globals_ = [(t.ns, t.name, "type") for t in S.types] + [(s.ns, s.name, "simple") for s in S.simples] + \
+    globals_ = [(t.ns, t.name, "type") for t in S.visible] + [(s.ns, s.name, "simple") for s in S.simples] + \
                [(g.ns, g.name, "element") for g in S.gelems]
     # 1. every global name in every root form
     for ns, name, kind in globals_:
         for sp in root_forms(rng, S, R, ns, name):
             out.append((sp.text(), sp, "global-%s-%s" % (kind, sp.root[0])))
     # 2. every member of every complex type, by dotted path
-    roots = [(t.ns, t.name, t) for t in S.types] + \
+    roots = [(t.ns, t.name, t) for t in S.visible] + \
             [(g.ns, g.name, S.type(g.tref[1], g.tref[2])) for g in S.gelems
              if g.tref[0] == "n" and S.type(g.tref[1], g.tref[2]) is not None]
     for ns, name, t in roots:
@@ -447,7 +492,7 @@ def gen_spellings(rng, S, R, thorough):
             out.append((sp.text(), sp, "enum-value-path"))
     # 4. unknown names
     unknown = []
-    t = rng.choice(S.types)
+    t = rng.choice(S.visible)
     uri_t = S.namespaces[t.ns][0]
     pfx_t = R.prefixes[t.ns]
     bogus = rng.choice(["Bogus", "T", "T99", t.name + "x", t.name.lower(), "e0", "op", "value", "x" + t.name])
@@ -596,8 +641,11 @@ def run(ck):
         "ordering with the history cut-off, Object.__setattr__, sudsobject.Iter, Factory.create incl. enumerations",
         "covered by correspondence only: the request built from a filled factory object equals the one built from "
         "the equivalent dict (compared as namespace infosets)",
+        "anonymous complex types (local and global elements with an inline complexType, also extending a named "
+        "type) are generated; abstractly they are types in a namespace no spelling can name, called like their "
+        "element (which is the class name suds gives the object)",
         "not modelled / not generated: ElementQuery's deep search (a local element name spelled without its path), "
-        "simpleContent/mixed types, element refs, anonymous types, Factory.separator, names containing '.'",
+        "simpleContent/mixed types, element refs, Factory.separator, names containing '.'",
     ]
     # suds reports every failed look-up through logging.error: keep the output readable
     lg = logging.getLogger("suds")
@@ -662,7 +710,7 @@ def run(ck):
         # the W literal is the last thing printed: every name met is interned
         wdefs.append("Definition %s : wsdl := %s." % (wname, wlit))
         # ---- object vs dict
-        for k, t in enumerate(S.types):
+        for k, t in enumerate(S.visible):
             params = [p for p, _ in S.flat(t) if isinstance(p, F.Elem)]
             if reaches_wildcard(S, t):
                 # a wildcard before a named member captures the look-up of an untyped dict
@@ -840,7 +888,9 @@ def run(ck):
 
     ck.rule = ("generated interfaces (family.gen_schema: 1-3 namespaces, nested sequence/choice/all, extension "
                "chains, attributes with defaults, occurs/nillable) extended with recursive and forward type "
-               "references, enumerations and other simple types, wildcards, empty and attribute-only types, the same "
+               "references, enumerations and other simple types, wildcards, empty and attribute-only types, anonymous "
+               "complex types on local and global elements, numeric/explicit occurrence bounds, schema blocks in rotated "
+               "order, the same "
                "member name in unrelated types, global elements of built-in/simple/complex type in every namespace "
                "(one called like a type), two prefixes per namespace; x every global type/element in every root "
                "form (plain / each prefix / {uri}) x every member by dotted path (depth 1 exhaustively, random "
@@ -870,8 +920,8 @@ def reaches_wildcard(S, t):
         if id(x) in seen:
             continue
         seen.add(id(x))
-        if shadowed(S, x):
-            return True
+        if shadowed(S, x) or x.ns >= HID:
+            return True                       # factory.create cannot name the type
         for p, _ in S.flat(x):
             if isinstance(p, F.Any):
                 return True
